@@ -87,6 +87,14 @@ def gen_case(r, k, same=None, long_=False):
             c["input"].append({"cnt": icnt, "grad": [(V.dyadic(r, -4, 4, bits=2) if icnt[a] > 0 else 0.0) for a in range(nt) for _ in range(nd)]})
     # applyBias switched at run time (cv bias a set apply_force 0|1) before some steps
     c["toggle"] = r.random() < 0.2
+    # timeStepFactor k > 1 on the bias and its variables (only allowed with same-step total forces): they are
+    # awake at the steps that are multiples of k.  ORACLE ONLY: the Coq model has no timeStepFactor, these cases
+    # are not compared with it.  No restraint (its own timeStepFactor would be 1) and no run-time switching.
+    c["tsf"] = r.choice([2, 3]) if (same and r.random() < 0.12) else 1
+    if c["tsf"] > 1:
+        c["toggle"] = False
+        for v in vars_:
+            v["hk"] = None
     nsteps = r.randint(60, 160) if long_ else r.randint(6, 26)
     steps = []
     prev = None
@@ -249,6 +257,8 @@ def scenario(c):
     for d, v in enumerate(c["vars"]):
         L += ["colvar {", "  name v%d" % d, "  lowerBoundary %s" % fmt(v["lower"]), "  upperBoundary %s" % fmt(v["upper"]),
               "  width %s" % fmt(v["w"])]
+        if c.get("tsf", 1) > 1:
+            L += ["  timeStepFactor %d" % c["tsf"]]
         if v["sub"]:
             L += ["  subtractAppliedForce on"]
         if kind(v) == "dist":
@@ -273,6 +283,8 @@ def scenario(c):
         abf += ["  maxForce " + " ".join(fmt(m) for m in c["maxf"])]
     if c["szd"]:
         abf += ["  stepZeroData on"]
+    if c.get("tsf", 1) > 1:
+        abf += ["  timeStepFactor %d" % c["tsf"]]
     if c["hideJ"]:
         abf += ["  hideJacobian on"]
     if c.get("scaled"):
@@ -455,7 +467,7 @@ def expected_samples(c):
             continue
         if c["same"]:
             rel, cont = clk[t]
-            elig = (rel > 0 and not cont) or c["szd"]
+            elig = ((rel > 0 and not cont) or c["szd"]) and rel % c.get("tsf", 1) == 0
         else:
             if t + 1 >= n:
                 continue
@@ -588,7 +600,15 @@ def oracle(c, impl_steps, state=None, files=None):
     if len(impl_steps) != len(c["steps"]):
         return [("oracle:steps", "implementation reported %d steps of %d" % (len(impl_steps), len(c["steps"])))]
     # applied force at every step
+    tsf = c.get("tsf", 1)
+    clk_ = clocks(c)
     for t, (st, f) in enumerate(zip(c["steps"], impl_steps)):
+        if clk_[t][0] % tsf != 0:
+            # bias and variables asleep: nothing is computed and nothing may be applied
+            if any(x != 0.0 for x in f["af"]):
+                bad.append(("oracle:af", "step %d: timeStepFactor %d, the variables are asleep but apply the force %s" % (t, tsf, f["af"])))
+                break
+            continue
         exp = expected_abf_force(c, st, f["cnt"], f["sum"])
         if not all(close(a, b) for a, b in zip(exp, f["cf"])):
             bad.append(("oracle:cf", "step %d: ABF force %s, but ramp(count)*mean(-force) [zero-mean, cap] of the stored arrays gives %s"
@@ -598,8 +618,9 @@ def oracle(c, impl_steps, state=None, files=None):
         # the hidden Jacobian force is compensated only by a variable that applies forces
         jj = [(j if c["hideJ"] and cv_applies(c, st, d) else 0.0) for d, j in enumerate(jac_forces(c, st))]
         sf = scale_factor(c, st)
-        if not all(close(Fr(a) * sf + Fr(b) - Fr(j), g) for a, b, j, g in zip(f["cf"], o, jj, f["af"])):
-            bad.append(("oracle:af", "step %d: force applied to the variables %s is not ABF force %s * scaling factor %s + restraint force %s - hidden Jacobian force %s" % (t, f["af"], f["cf"], float(sf), o, jj)))
+        # impulse multiple time stepping: the force applied at an awake step is multiplied by timeStepFactor
+        if not all(close(Fr(a) * sf * tsf + Fr(b) - Fr(j) * tsf, g) for a, b, j, g in zip(f["cf"], o, jj, f["af"])):
+            bad.append(("oracle:af", "step %d: force applied to the variables %s is not (ABF force %s * scaling factor %s - hidden Jacobian force %s) * timeStepFactor %d + restraint force %s" % (t, f["af"], f["cf"], float(sf), jj, tsf, o)))
             break
     # final arrays = attributed samples
     smp = expected_samples(c)
@@ -935,6 +956,8 @@ SHOWN = ("bin", "fbin", "cf", "tf", "af", "cnt", "sum", "go")
 
 def tie_case(run, c, im, mline):
     """implementation vs model, step by step, every field bit-exact"""
+    if c.get("tsf", 1) > 1:
+        return      # timeStepFactor is not in the model: these cases are judged by the oracle alone
     steps_i = im["steps"]
     msteps, spec = parse_model(mline) if mline is not None else ([], None)
     if len(msteps) != len(steps_i):
@@ -1037,6 +1060,7 @@ def check(run):
         run.dist("scaledBiasingForce", 1 if c.get("scaled") else 0)
         run.dist("inputPrefix_datasets", len(inputs_of(c)))
         run.dist("applyBias_switched_at_run_time", 1 if c.get("toggle") else 0)
+        run.dist("timeStepFactor>1 (oracle only)", 1 if c.get("tsf", 1) > 1 else 0)
         if im.get("state") is not None:
             nstate += 1
         # property oracle on the implementation alone
